@@ -63,6 +63,10 @@ def footprints(chk, rng, tier):
         ]
         samp = amb_mod.Ambiguity.compute_ambiguity_and_sampled_ambiguity(cv, np.float32(0.0), np.float32(0.5), np.float32(0.125))[1]
         specs.append(("compute_risk", risk_mod, risk_mod.Risk.compute_risk, (cv, samp, np.float32(0.0), np.float32(0.5), np.float32(0.125)), (0, 1)))
+        specs.append(("compute_risk_and_sampled_risk", risk_mod, risk_mod.Risk.compute_risk_and_sampled_risk,
+                      (cv, samp, np.float32(0.0), np.float32(0.5), np.float32(0.125)), (0, 1)))
+        specs.append(("loop_approximate_refinement", ref_mod, ref_mod.AbstractRefinement.loop_approximate_refinement,
+                      (cv, -disp, mask, 0.0, float(nd - 1), 1, "min", vfit.Vfit.refinement_method.py_func), (0, 1, 2)))
         # interval regularisation kernels
         bl = np.array([[r, 0] for r in range(rows)], dtype=np.int64)
         br = np.array([[r, cols - 1] for r in range(rows)], dtype=np.int64)
